@@ -366,13 +366,23 @@ func verifRawSocketCase(dir string, caseNo int, line string) (string, string) {
 	// fault-free stretches; on tcp/udp a write that succeeds into a dead connection gives no
 	// signal, so there the wait is bounded by a quiet period.
 	const giveUpLine = "message failed after the configured retry limit"
+	caseDeadline := time.Now().Add(20 * time.Second)
 	awaitProcessed := func(got0, gu0, size int) {
 		deadline := time.Now().Add(2 * time.Second)
 		if proto != "unix" {
 			deadline = time.Now().Add(40 * time.Millisecond)
 		}
-		for time.Now().Before(deadline) {
-			if (sink.received() >= got0+size || lbuf.count(giveUpLine) > gu0) && sink.acceptedAll(lbuf) {
+		last, lastChange := got0, time.Now()
+		for time.Now().Before(deadline) && time.Now().Before(caseDeadline) {
+			got := sink.received()
+			if (got >= got0+size || lbuf.count(giveUpLine) > gu0) && sink.acceptedAll(lbuf) {
+				return
+			}
+			if got != last {
+				last, lastChange = got, time.Now()
+			}
+			// octets arrived but not the expected number and nothing more comes: the oracle will tell
+			if got > got0 && time.Since(lastChange) > 25*time.Millisecond {
 				return
 			}
 			time.Sleep(50 * time.Microsecond)
